@@ -115,7 +115,17 @@ def h_scan(fsize: int, s0: int, s1: int, s2: int, s3: int, s4: int, f0: int, f1:
     for i in range(1, len(log)):
         if not log[i] > log[i - 1]:
             return 0
-    if len(img._partitions) > len(log):
+    # partitions parsed before the first unparsable header are kept, later ones are not looked at (C15.scan)
+    sizes = [s0, s1, s2, s3, s4, 1]
+    fails = [f0 == 1, f1 == 1, f2 == 1, f3 == 1, f4 == 1, False]
+    good = 0
+    for i in range(len(log)):
+        if fails[i] or sizes[i] <= 0:
+            break
+        good += 1
+    if len(img._partitions) != good:
+        return 0
+    if good < len(log) and len(log) != good + 1:
         return 0
     return 1
 
